@@ -7,7 +7,13 @@
    with any two-letter talker, VDM or VDO in any letter case, n = number of chunks, i = 1..n, one common sequence id
    (a digit, or empty -- empty only allowed when n = 1 ... the property allows it for one part), any channel of
    A/B/1/2/empty, fill_i = fill on the last chunk and 0 elsewhere, ANY two hex digits as checksum (lenient decoding
-   does not look at it), and the sentences handed over in ANY order. *)
+   does not look at it), and the sentences handed over in ANY order.
+
+   One sentence carries at most [max_chunk] = 200 payload characters.  NMEA 0183 limits a sentence to 82 characters
+   (about 60 payload characters) and the longest AIS message (5 slots, 1064 bits) has 178 characters, so 200 admits
+   every sentence a receiver can emit, including a complete longest message in one (over-long) sentence; a "sentence"
+   with more payload than that is not an NMEA carrier of anything.  The payload as a whole is not bounded
+   (up to 5 x 200 characters). *)
 From Coq Require Import ZArith List Bool Permutation.
 Import ListNotations.
 Open Scope Z_scope.
@@ -60,6 +66,8 @@ Definition opts_ok (o : carrier_opts) : bool :=
   end &&
   forallb is_space (o_trailing o).
 
+Definition max_chunk : nat := 200.
+
 (* one sentence *)
 Definition sentence_text (o : carrier_opts) (n i : nat) (seq : option nat) (chunk : bytestr) (fill : nat) : bytestr :=
   (match o_tagblock o with Some tb => BACKSLASH :: tb ++ [BACKSLASH] | None => [] end) ++
@@ -81,7 +89,8 @@ Definition is_carrier (p : bytestr) (fill : nat) (ss : list bytestr) : Prop :=
   exists (parts : list (bytestr * carrier_opts)) (seq : option nat),
     concat (map fst parts) = p /\
     (1 <= length parts <= 5)%nat /\
-    Forall (fun co => fst co <> [] /\ forallb is_armor (fst co) = true /\ opts_ok (snd co) = true) parts /\
+    Forall (fun co => fst co <> [] /\ (length (fst co) <= max_chunk)%nat /\ forallb is_armor (fst co) = true /\
+                      opts_ok (snd co) = true) parts /\
     (fill <= 5)%nat /\
     match seq with Some s => (s <= 9)%nat | None => length parts = 1%nat end /\
     Permutation ss (sentences_from (length parts) 1 seq fill parts).
@@ -92,3 +101,37 @@ Definition plain_carrier (p : bytestr) (fill : nat) : list bytestr := [sentence_
 
 Lemma plain_opts_ok : opts_ok plain_opts = true.
 Proof. reflexivity. Qed.
+
+(* ------------------------------------------------------------------------------------------------ *)
+(* An executable check of a carrier WITNESS: given the cutting, the per-sentence options and the sequence id that a
+   generator claims to have used, decide whether [ss] is the carrier they describe.  The harness uses it (extracted)
+   to confirm that the sentences it builds are inside the family the theorem quantifies over.  Sound and complete
+   w.r.t. [is_carrier] (Proofs/CarrierProofs.v carrier_checkb_sound / carrier_checkb_complete). *)
+Definition bytestr_eqb (a b : bytestr) : bool := if list_eq_dec Z.eq_dec a b then true else false.
+
+Fixpoint remove_one (x : bytestr) (l : list bytestr) : option (list bytestr) :=
+  match l with
+  | [] => None
+  | y :: r => if bytestr_eqb x y then Some r
+              else match remove_one x r with Some r' => Some (y :: r') | None => None end
+  end.
+
+(* multiset equality of two lists of byte strings *)
+Fixpoint permb (l1 l2 : list bytestr) : bool :=
+  match l1 with
+  | [] => match l2 with [] => true | _ => false end
+  | x :: r => match remove_one x l2 with Some l2' => permb r l2' | None => false end
+  end.
+
+Definition part_okb (co : bytestr * carrier_opts) : bool :=
+  negb (Nat.eqb (length (fst co)) 0) && Nat.leb (length (fst co)) max_chunk && forallb is_armor (fst co) &&
+  opts_ok (snd co).
+
+Definition carrier_checkb (p : bytestr) (fill : nat) (parts : list (bytestr * carrier_opts)) (seq : option nat)
+           (ss : list bytestr) : bool :=
+  bytestr_eqb (concat (map fst parts)) p &&
+  Nat.leb 1 (length parts) && Nat.leb (length parts) 5 &&
+  forallb part_okb parts &&
+  Nat.leb fill 5 &&
+  match seq with Some s => Nat.leb s 9 | None => Nat.eqb (length parts) 1 end &&
+  permb ss (sentences_from (length parts) 1 seq fill parts).
